@@ -2,6 +2,7 @@ package main
 
 import (
 	"fmt"
+	"go/ast"
 	"go/token"
 	"go/types"
 	"sort"
@@ -174,6 +175,7 @@ func (g *Gen) funcEffects(fn *ssa.Function) map[string]bool {
 				e[f] = true
 			}
 		}
+		g.ghostEffects(fn, e)
 		return e
 	}
 	// external: from its contract
@@ -213,6 +215,23 @@ func (g *Gen) resultFamilies(t types.Type, e map[string]bool) {
 	}
 }
 
+// ghostEffects adds the ghost families (fam:G_...) a contract says its function assigns.
+func (g *Gen) ghostEffects(fn *ssa.Function, e map[string]bool) {
+	if c := g.Spec.Contracts[FuncKey(fn)]; c != nil {
+		for _, a := range c.Assigns {
+			if strings.HasPrefix(a, "fam:") {
+				switch a[4:] {
+				case "G_pos":
+					g.Family("G_pos", "Int")
+				case "G_toks":
+					g.Family("G_toks", "(Array Int Int)")
+				}
+				e[a[4:]] = true
+			}
+		}
+	}
+}
+
 // ComputeEffects iterates funcEffects to a fixpoint (recursion).
 func (g *Gen) ComputeEffects() {
 	var fns []*ssa.Function
@@ -230,6 +249,7 @@ func (g *Gen) ComputeEffects() {
 					g.instrEffects(in, e)
 				}
 			}
+			g.ghostEffects(f, e)
 			if len(e) != before {
 				changed = true
 			}
@@ -319,6 +339,7 @@ func (fg *FuncGen) call(v *ssa.Call, c *ssa.CallCommon, instr ssa.Instruction) {
 		}
 		fg.callsExternalUnmodelled[key] = true
 	}
+	fg.siteAsserts(v, callee, args)
 	pre := fg.st.Copy()
 	wmBefore := fg.famIn(fg.st, "wm")
 	names := paramNames(callee)
@@ -379,6 +400,9 @@ func (fg *FuncGen) call(v *ssa.Call, c *ssa.CallCommon, instr ssa.Instruction) {
 			continue
 		}
 		sym := fg.havocFam(fg.st, f)
+		if strings.HasPrefix(f, "G_") {
+			continue
+		}
 		if ref, ok := assigned[f]; ok {
 			fg.emit("(assert (forall ((r Int)) (! (=> (and (< r %s) (not (= r %s))) (= (select %s r) (select %s r))) :pattern ((select %s r)))))", wmBefore, ref, sym, before, sym)
 		} else {
@@ -693,4 +717,101 @@ func (fg *FuncGen) appendOp(v *ssa.Call, c *ssa.CallCommon) {
 	r := fg.declare(v)
 	fg.emit("(assert (and (= (sref %s) %s) (= (soff %s) 0) (= (slen %s) (+ (slen %s) (slen %s))) (>= (scap %s) (slen %s))))", r.S, ref, r.S, r.S, s.S, t.S, r.S, r.S)
 	fg.obl("safe.make", "", v.Pos(), safetyTags, fmt.Sprintf("(<= (+ (slen %s) (slen %s)) MaxInt)", s.S, t.S), "append: length in range")
+}
+
+// siteAsserts emits the `at callee#n assert` obligations of the enclosing function's contract.
+func (fg *FuncGen) siteAsserts(v *ssa.Call, callee *ssa.Function, args []TTerm) {
+	if fg.c == nil || len(fg.c.Sites) == 0 {
+		return
+	}
+	name := callee.Name()
+	// ordinal of this call among calls to the same callee, in source order
+	if fg.siteOrd == nil {
+		fg.siteOrd = map[*ssa.Call]int{}
+		byName := map[string][]*ssa.Call{}
+		for _, b := range fg.fn.Blocks {
+			for _, in := range b.Instrs {
+				if c, ok := in.(*ssa.Call); ok {
+					if sc := c.Common().StaticCallee(); sc != nil {
+						byName[sc.Name()] = append(byName[sc.Name()], c)
+					}
+				}
+			}
+		}
+		for _, cs := range byName {
+			sort.Slice(cs, func(i, j int) bool { return cs[i].Pos() < cs[j].Pos() })
+			for i, c := range cs {
+				fg.siteOrd[c] = i + 1
+			}
+		}
+	}
+	ord := fg.siteOrd[v]
+	for _, sa := range fg.c.Sites {
+		if sa.Callee != name || (sa.N != 0 && sa.N != ord) {
+			continue
+		}
+		env := fg.funcEnv(fg.st, State{}, nil)
+		for i, a := range args {
+			env.vars[fmt.Sprintf("arg%d", i)] = a
+		}
+		// local variables of the caller are visible through their latest debug reference in this block
+		base := env.lookup
+		env.lookup = func(n string) (TTerm, bool) {
+			if base != nil {
+				if t, ok := base(n); ok {
+					return t, true
+				}
+			}
+			if val := fg.resolveInBlock(n, v.Block(), v); val != nil {
+				return fg.valueOf(val), true
+			}
+			return TTerm{}, false
+		}
+		t := env.Tr(sa.C.E)
+		if fg.err != nil {
+			fg.err = fmt.Errorf("%s: %v", sa.C.Pos, fg.err)
+			return
+		}
+		if sa.Assume {
+			fg.assume(t.S)
+			fg.assumed = append(fg.assumed, sa.C.Pos+": "+sa.C.Text)
+			continue
+		}
+		label := sa.C.Label
+		if label == "" {
+			label = "site"
+		}
+		fg.obl("assert", fmt.Sprintf("at.%s.%d.%s", name, ord, label), v.Pos(), pick(sa.C.Tags, fg.funcTags()), t.S, sa.C.Text)
+	}
+}
+
+// resolveInBlock finds the SSA value of a source variable as last referenced at or before an instruction.
+func (fg *FuncGen) resolveInBlock(name string, b *ssa.BasicBlock, before ssa.Instruction) ssa.Value {
+	var best ssa.Value
+	cur := b
+	for cur != nil && best == nil {
+		for _, in := range cur.Instrs {
+			if cur == b && in == before {
+				break
+			}
+			if d, ok := in.(*ssa.DebugRef); ok {
+				if id, ok := d.Expr.(*ast.Ident); ok && id.Name == name {
+					best = d.X
+				}
+			}
+			if phi, ok := in.(*ssa.Phi); ok && phi.Comment == name {
+				best = phi
+			}
+		}
+		cur = cur.Idom()
+	}
+	if best != nil {
+		return best
+	}
+	for _, p := range fg.fn.Params {
+		if p.Name() == name {
+			return p
+		}
+	}
+	return nil
 }
